@@ -12,6 +12,13 @@ lean/NmlVerif/Model/AccSummary.lean (`List Summ.L3`), statement by statement:
 pieces: "<literal>" | str(counter) | string variable | network.a | str(len(network.a)) | item.a | str(item) |
         str(len(item.a)) | str(item.a[0]) | str(v) | str(leaf) | str(leaf.a)
 
+Before anything is translated or compared the whole `summary` FunctionDef goes through translators/c19_norm.py
+(`normalised_summary`): docstrings / annotations stripped, `not a == b` on str operands = `a != b`, `not a in b` =
+`a not in b`, `else` after a branch that always leaves = no else, a list local used only as the iterable of the next
+`for` inlined, `x = x + e` = `x += e` for the str / int locals, f-strings and `%s`-formats over int / str values =
+`+`-concatenation, locals alpha-renamed onto `SUMMARY_LOCALS` (order of first binding).  The pinned texts are normalised
+the same way.  Adjacent string literals of one concatenation are emitted as one `.lit`.
+
 Which names are counters / string variables is decided by their initialisation inside the loop body (`x = 0`,
 `x = ""`); `info` is the string the enclosing function accumulates.  Control flow nests at most three levels.  Anything
 else is refused (`Gap`).  The statements before and after the network loop (banner, document id, the
@@ -19,6 +26,29 @@ else is refused (`Gap`).  The statements before and after the network loop (bann
 `Summ.summaryText`); their source text is pinned: `PROLOGUE` / `EPILOGUE` must be what `ast.unparse` gives.
 """
 import ast
+import importlib.util
+import os
+
+
+def _load(name):
+    spec = importlib.util.spec_from_file_location("c19_tr_" + name, os.path.join(os.path.dirname(os.path.abspath(__file__)), name + ".py"))
+    mod = importlib.util.module_from_spec(spec)
+    spec.loader.exec_module(mod)
+    return mod
+
+
+NORM = _load("c19_norm")      # equivalent surface shapes -> one canonical shape (see its docstring: steps S1-S7)
+
+# locals of `summary` in order of first binding (after S5 has inlined `membs` into its loop): the names the generated
+# program and the hand model `Summ.netProg` use for the counters / string variables.  A function with the same number
+# of locals is alpha-renamed onto these (S7); any other number of locals is left as written.
+SUMMARY_LOCALS = ["info", "post", "memb", "listed", "entry", "network", "tot_pop", "tot_cells", "pop_info", "pop", "loc",
+                  "p", "tot_proj", "tot_conns", "proj_info", "proj", "sc", "tot_input_lists", "tot_inputs", "input_info",
+                  "il", "el"]
+
+
+def normalised_summary(fdef):
+    return NORM.normalise(fdef, canon=SUMMARY_LOCALS)
 
 
 class Gap(Exception):
@@ -62,6 +92,12 @@ EPILOGUE = """info += '*******************************************************'
 return info"""
 
 SIGNATURE = "(self, show_includes=True, show_non_network=True)"
+
+
+def _norm_pin(text, args=SIGNATURE[1:-1], alpha=False):
+    """the pinned text in canonical shape (same normaliser as the source; locals keep their names unless `alpha`)"""
+    f = NORM.normalise(NORM.parse_body(text, args), alpha=alpha)
+    return "\n".join(ast.unparse(s) for s in f.body)
 
 
 class NetTr:
@@ -121,10 +157,24 @@ class NetTr:
                 return ".leafStr %s" % lstr(a.attr)
         raise Gap("string piece `%s`" % src(e))
 
-    def pieces(self, e, env):
+    def pieces_raw(self, e, env):
         if isinstance(e, ast.BinOp) and isinstance(e.op, ast.Add):
-            return self.pieces(e.left, env) + self.pieces(e.right, env)
+            return self.pieces_raw(e.left, env) + self.pieces_raw(e.right, env)
         return [self.piece(e, env)]
+
+    def pieces(self, e, env):
+        """adjacent literals are one literal, empty literals vanish ("a" + "b" = "ab", s + "" = s for a str s; the
+        accumulating variable is a str, see S6)"""
+        out = []
+        for p in self.pieces_raw(e, env):
+            if p.startswith(".lit "):
+                if p == '.lit ""':
+                    continue
+                if out and out[-1].startswith(".lit "):
+                    out[-1] = out[-1][:-1] + p[len('.lit "'):]
+                    continue
+            out.append(p)
+        return out
 
     def nexpr(self, e, env):
         item = env.get("item")
@@ -232,6 +282,7 @@ class NetTr:
 
 def net_program(fdef, gaps, tag):
     """`summary` FunctionDef -> Lean term of type `List Summ.L3` (or None), pinning prologue / epilogue / signature"""
+    fdef = normalised_summary(fdef)
     body = [s for s in fdef.body
             if not (isinstance(s, ast.Expr) and isinstance(s.value, ast.Constant) and isinstance(s.value.value, str))]
     loops = [i for i, s in enumerate(body) if isinstance(s, ast.For) and isinstance(s.iter, ast.Attribute)
@@ -245,12 +296,13 @@ def net_program(fdef, gaps, tag):
         gaps.append("%s summary: signature %s is not the modelled %s" % (tag, sig, SIGNATURE))
     pro = "\n".join(ast.unparse(s) for s in body[:i])
     epi = "\n".join(ast.unparse(s) for s in body[i + 1:])
-    if pro != PROLOGUE:
-        a, b = pro.split("\n"), PROLOGUE.split("\n")
+    want_pro, want_epi = _norm_pin(PROLOGUE), _norm_pin(EPILOGUE)
+    if pro != want_pro:
+        a, b = pro.split("\n"), want_pro.split("\n")
         k = next((j for j in range(max(len(a), len(b))) if j >= len(a) or j >= len(b) or a[j] != b[j]), 0)
         gaps.append("%s summary: the statements before the network loop are not the modelled ones (line %d: `%s`)" % (
             tag, k, (a[k] if k < len(a) else "<missing>").strip()[:80]))
-    if epi != EPILOGUE:
+    if epi != want_epi:
         gaps.append("%s summary: the statements after the network loop are not the modelled ones: `%s`" % (tag, epi[:80]))
     loop = body[i]
     try:
@@ -289,10 +341,11 @@ def check_utils(path, gaps):
     found = {}
     for n in tree.body:
         if isinstance(n, ast.FunctionDef) and n.name in UTILS_PINNED:
-            body = [s for s in n.body
-                    if not (isinstance(s, ast.Expr) and isinstance(s.value, ast.Constant) and isinstance(s.value.value, str))]
-            found[n.name] = (ast.unparse(n.args), "\n".join(ast.unparse(s) for s in body))
+            n = NORM.normalise(n, alpha=True)
+            found[n.name] = (ast.unparse(n.args), "\n".join(ast.unparse(s) for s in n.body))
     for name, want in UTILS_PINNED.items():
+        w = NORM.normalise(NORM.parse_body(want[1], want[0]), alpha=True)
+        want = (ast.unparse(w.args), "\n".join(ast.unparse(s) for s in w.body))
         if name not in found:
             gaps.append("utils.py: function %s not found" % name)
         elif found[name] != want:
